@@ -154,7 +154,7 @@ var VfC02KindResults = map[string][]string{
 func VfC02Register() {
 	logger.InitNop()
 	for name, results := range VfC02KindResults {
-		if filters.GetKind(name) != nil {
+		if _, ok := vfC02RegistrySnapshot()[name]; ok {
 			continue
 		}
 		k := &filters.Kind{
@@ -222,9 +222,25 @@ func vfC02Validate(s *VfC02Spec) (ok bool, panicked bool) {
 	return spec.Validate() == nil, false
 }
 
+// vfC02RegistrySnapshot reads the filter kind registry itself (WalkKind, i.e.
+// the registered names verbatim): the oracle table of a case is the EXACT
+// membership of a kind name in this list. It deliberately does not go through
+// filters.GetKind, the lookup the validation under test uses.
+func vfC02RegistrySnapshot() map[string][]string {
+	m := map[string][]string{}
+	filters.WalkKind(func(k *filters.Kind) bool {
+		rs := append([]string{}, k.Results...)
+		sort.Strings(rs)
+		m[k.Name] = rs
+		return true
+	})
+	return m
+}
+
 // VfC02FillOracles fills the oracle tables of a case with the real library.
 func VfC02FillOracles(in *VfC02In) {
 	in.Kinds = map[string][]string{}
+	registry := vfC02RegistrySnapshot()
 	fill := func(s *VfC02Spec) {
 		if s == nil {
 			return
@@ -233,9 +249,7 @@ func VfC02FillOracles(in *VfC02In) {
 			d := &s.Decls[i]
 			meta := &supervisor.MetaSpec{Name: d.Name, Kind: d.Kind, Version: supervisor.DefaultSpecVersion}
 			d.Wf = v.Validate(meta).Valid()
-			if k := filters.GetKind(d.Kind); k != nil {
-				rs := append([]string{}, k.Results...)
-				sort.Strings(rs)
+			if rs, ok := registry[d.Kind]; ok {
 				in.Kinds[d.Kind] = rs
 			}
 		}
